@@ -21,8 +21,9 @@ def E(name, params, ret, body, api="", group="prop"):
 class Ctx:
     """one build (configuration + extra wrappers) and cached analyses"""
 
-    def __init__(self, config, extra=(), only=None, lowbits_canon=False, partition_ops=()):
+    def __init__(self, config, extra=(), only=None, lowbits_canon=False, partition_ops=(), summaries=False):
         self.config = config
+        self.summaries = summaries
         self.lowbits_canon = lowbits_canon
         self.partition_ops = tuple(partition_ops)
         self.built = runner.build(config, extra_entries=list(extra), only=only)
@@ -38,7 +39,8 @@ class Ctx:
         boxes = boxes or runner.default_boxes(ent)
         res, alarms, stats, an = runner.analyze_entry(self.built, name, boxes=boxes, rnd=random.Random(seed),
                                                       refine_depth=1 if refine else 0, want_paths=True,
-                                                      opts={"lowbits_canon": self.lowbits_canon, "partition_ops": self.partition_ops})
+                                                      opts={"lowbits_canon": self.lowbits_canon, "partition_ops": self.partition_ops,
+                                                            "summaries": self.summaries})
         r = Run(self, name, ent, boxes, res, alarms, stats, an)
         self.cache[key] = r
         return r
